@@ -71,19 +71,25 @@ def determinism(quick: bool, scratch: str) -> int:
     return bad
 
 
-def sensitivity(scratch: str) -> int:
+def sensitivity(scratch: str, only: str | None = None) -> int:
     mdir = os.path.join(driver.VERIF, "selftest", "mutants")
+    sdir = os.path.join(driver.VERIF, "seeded")
     bad = 0
-    if not os.path.isdir(mdir):
-        return 0
-    for name in sorted(os.listdir(mdir)):
-        if not name.endswith(".diff"):
-            continue
-        prop = name.split("-")[0]
+    todo: list[tuple[str, str, str]] = []  # (label, property, patch path)
+    if os.path.isdir(mdir):
+        for name in sorted(os.listdir(mdir)):
+            if name.endswith(".diff") and (only is None or only in name):
+                todo.append((name, name.split("-")[0], os.path.join(mdir, name)))
+    if os.path.isdir(sdir):
+        for name in sorted(os.listdir(sdir)):
+            mp = os.path.join(sdir, name, "meta.json")
+            if os.path.exists(mp) and (only is None or only in name):
+                todo.append((name, json.load(open(mp))["property"], os.path.join(sdir, name, "patch.diff")))
+    for name, prop, patchfile in todo:
         work = tempfile.mkdtemp(prefix="y0sim-mut-", dir=os.environ.get("TMPDIR") or "/tmp")
         try:
             shutil.copytree("/repo/src", os.path.join(work, "src"), ignore=shutil.ignore_patterns("__pycache__"))
-            p = subprocess.run(["patch", "-p1", "-s", "-d", work, "-i", os.path.join(mdir, name)],
+            p = subprocess.run(["patch", "-p1", "-s", "-d", work, "-i", patchfile],
                                capture_output=True, text=True)
             if p.returncode != 0:
                 print(f"SELFTEST-FAIL sensitivity {name}: patch does not apply: {p.stdout[-300:]}{p.stderr[-300:]}")
@@ -111,6 +117,11 @@ def sensitivity(scratch: str) -> int:
 
 def run(quick: bool, scratch: str) -> int:
     t0 = time.time()
+    only = os.environ.get("Y0SIM_ONLY_MUTANT")
+    if only:
+        bad = sensitivity(scratch, only)
+        print(f"selftest sensitivity (only {only}): {'OK' if not bad else 'FAILURES'}")
+        return 0 if not bad else 2
     for fn in sorted(os.listdir(driver.HERE)):
         if fn.endswith(".py"):
             py_compile.compile(os.path.join(driver.HERE, fn), cfile=os.path.join(scratch, fn + "c"), doraise=True)
